@@ -490,6 +490,15 @@ def rule_document_order(rep: Report, repo: Repo, r_order: str, r_module: Optiona
         if call_name(c) == "self.process_docs" and c.args:
             lm = listener_model(repo)
             ok_p = norm(resolve_locals(c.args[0], pfn)) == f"self.aggregator.{lm.roles['entries']}"
+    # ... unconditionally: an empty entry list still gets its module directive
+    from ..model import guards_of
+    for c in calls_in(pfn):
+        if call_name(c) == "self.process_docs":
+            gs = guards_of(pfn, c, repo.module("cminx.documenter").parents)
+            cond = [norm(g.test) for g in gs if "documented" in norm(g.test) or "len(" in norm(g.test)]
+            rep.check(not cond, r_order, f"cminx.documenter:{doc_cls}.process", "process_docs(...) is unconditional",
+                      f"the entries are only rendered when `{cond[0][:50] if cond else ''}`: a file without documentable commands gets a "
+                      f"page without module directive", witness="a file containing only comments and message() calls")
     rep.check(ok_p, r_order, f"cminx.documenter:{doc_cls}.process", "process_docs(self.aggregator.<entries>)",
               "process() renders something other than the listener's entry list (copy sorted/filtered on the way)")
     # the walker walks with the aggregator
